@@ -27,7 +27,7 @@ RULE = (
 )
 ASSUMPTIONS = [
     "binning is 1.0 (the converters' default); name prefixes inside the last path component contain no digits before the tomogram number (documented parsing rule: first number = tomogram, second = subtomogram)",
-    "matrix tolerance 2e-7 (scipy's Euler extraction switches to a gimbal-lock approximation for |sin(angle)| < 1e-7, measured 3.5e-9; angles are written with 6 decimals); positions 1e-9 in memory, 5e-7 through a file",
+    "matrix tolerance 2e-7 (scipy's Euler extraction switches to a gimbal-lock approximation for |sin(angle)| < 1e-7, measured 3.5e-9; angles are written with 6 decimals); positions 1e-9 in memory, 5.1e-7 through a file (half a unit of the 6th decimal plus floating-point slop)",
     "the harness' RELION writer emits plain STAR (oracle-independent of cryoCAT's writer)",
 ]
 BUDGET = {"quick": {"examples": 2000, "seconds": 85}, "thorough": {"examples": 8000, "seconds": 540}}
@@ -337,7 +337,7 @@ def run_export(case, out):
         if not out.check(specs == want_specs, "export_file:block_names", f"{specs} vs {want_specs}"):
             return
         cols = tokens_to_cols(blocks[-1])
-        if not check_export_table(out, cols, "export_file", a, v, px, tf, sf, 5e-7, 2e-7):
+        if not check_export_table(out, cols, "export_file", a, v, px, tf, sf, 5.1e-7, 2e-7):
             return
         if case["optics"] and v >= 3.1:
             oc = tokens_to_cols(blocks[0])
@@ -349,7 +349,7 @@ def run_export(case, out):
             ok, back = call(out, "relion2emmotl", lambda: cryomotl.relion2emmotl(star, relion_version=bv, pixel_size=px, binning=1.0))
         if not ok:
             return
-        tolp, tolr = 5e-7, 2e-7
+        tolp, tolr = 5.1e-7, 2e-7
         bdf = back.df
     ids = a[:, IX["subtomo_id"]]
     exp = {"total": total, "R": R0, "tomo": a[:, IX["tomo_id"]].tolist(), "cls": a[:, IX["class"]].tolist(), "subnum": ids.tolist(),
@@ -456,7 +456,7 @@ def run_import(case, out):
                     shift_ = -origin / (px if (px_via != "argument") else 1.0) if v >= 3.1 else -origin
                     exp_ = {"pos": pos, "shift": shift_, "px": px, "R": np.transpose(M_, (0, 2, 1)), "tomo": tomo.tolist(), "cls": cls.tolist(), "subnum": sub.tolist(), "subset": subset}
                     out.label("relion2stopgap_file")
-                    check_import_table(out, back, "relion2stopgap_file", exp_, 5e-7, 2e-7, check_ids=False)
+                    check_import_table(out, back, "relion2stopgap_file", exp_, 5.1e-7, 2e-7, check_ids=False)
                 except (ValueError, IndexError, KeyError) as e:
                     out.fail("relion2stopgap_file:unreadable", repr(e))
             if px_via == "argument":
